@@ -62,6 +62,8 @@ class CohGen:
             serialize_p=0.0,            # probability that a class declares the serialize() marker
             partly_qualified_enum_returns=True,   # (matlab) enum return types spelled relative to their namespace
             same_arity_overloads=True,  # (matlab) overloads of equal arity told apart by the type test of a parameter
+            keyword_enumerators=0.12,   # probability that an enum has an enumerator spelled like a Python / MATLAB keyword
+            substring_param_names=0.12, # probability that a defaulted parameter's name is contained in an earlier one's
             keyword_params=0.06,        # (pybind) probability that a parameter is named like a Python keyword
             twin_signatures=0.2,        # probability that a callable reuses the parameter list of an earlier one
             member_template_p=0.2,      # methods (and, where the target allows, static methods / free functions) with
@@ -323,6 +325,9 @@ class CohGen:
                 if d is None:
                     break
                 a[2] = d
+        if len(out) >= 2 and out[-1][2] is not None and out[0][2] is None and r.random() < self.f['substring_param_names'] \
+                and out[-1][1] not in PY_RESERVED_CPP_OK + ['None', 'global', 'yield']:
+            out[0][1] = out[-1][1] + r.choice(['s', 'Count', '_0'])       # rows / row
         if out and not tparams and all(not t.ns and not t.args and t.name in SCALARS + ['string'] and not t.marker
                                        for t, _, _ in out):
             self._sigs.append([(t, nm) for t, nm, _ in out])
@@ -338,7 +343,13 @@ class CohGen:
             cand = sorted({e['name'] for e in self.enums if e['cls'] not in (None, cls)} - taken)
             if cand:
                 name = self.r.choice(cand)
-        vals = tuple(self.name(self.r.choice(['A', 'B', 'red', 'Dog', 'k'])) for _ in range(self.r.choice([1, 2, 3, 5])))
+        vals = [self.name(self.r.choice(['A', 'B', 'red', 'Dog', 'k'])) for _ in range(self.r.choice([1, 2, 3, 5]))]
+        if self.r.random() < self.f['keyword_enumerators']:
+            # enumerators that are keywords of the target language but fine C++ identifiers
+            kw = ['None', 'pass', 'in', 'from', 'yield', 'global', 'is'] if self.target == 'pybind' else \
+                ['end', 'global', 'function', 'otherwise', 'persistent', 'elseif', 'parfor']
+            vals.insert(self.r.randint(0, len(vals)), self.r.choice(kw))
+        vals = tuple(vals)
         kw = self.r.choice(['enum', 'enum class'])
         self.enums.append({'ns': self.cur_ns, 'cls': cls, 'name': name, 'vals': vals, 'kw': kw,
                            'templated': bool(cls and self.cur_templated)})
@@ -513,7 +524,9 @@ class CohGen:
                 nm = self.lname()
                 members.append(S.Prop(t, nm))
             elif k == 'op':
-                op = r.choice(['+', '-', '*', '==', '<', '[]', '()', 'u-', 'u+'])
+                op = r.choice(['+', '-', '*', '==', '!=', '<', '<=', '>', '>=', '[]', '()', 'u-', 'u+'])
+                if any(m.k == 'Op' and m.op == '==' for m in members) and r.random() < 0.5:
+                    op = '!='            # both == and != declared
                 if any(m.k == 'Op' and m.op == op.replace('u', '') and (not m.args) == op.startswith('u') for m in members):
                     continue        # (the unary and the binary form of one symbol may both be declared)
                 me = S.T(name, self.cur_ns) if not tmpl else S.T('This')
